@@ -61,6 +61,14 @@ def set_precision(ctx, precset):
         ctx.dps = n
 
 
+def _owner(caller):
+    """'mod:Class.meth' -> 'mod:Class' ; plain functions and closures have no owner"""
+    mod, _, q = caller.partition(':')
+    if '.' not in q or '<locals>' in q:
+        return None
+    return mod + ':' + q.rsplit('.', 1)[0]
+
+
 def culprit_of(events):
     """events = [(which, caller, old_prec, new_prec)].  A stack of changes not (yet) undone: a change whose new
     value equals the saved old value of a stacked entry undoes that entry and everything above it.
@@ -69,8 +77,11 @@ def culprit_of(events):
     for which, caller, old, new in events:
         if old == new:
             continue
+        own = _owner(caller)
         for j in range(len(st) - 1, -1, -1):
-            if st[j][1] == new:
+            # a restore is made by the function that saved the value (or by a sibling method of the same class,
+            # e.g. PrecisionManager.__enter__/__exit__); a coinciding value set by unrelated code is a new change
+            if st[j][1] == new and (st[j][0] == caller or (own is not None and _owner(st[j][0]) == own)):
                 del st[j:]
                 break
         else:
